@@ -40,6 +40,33 @@ func (c *FnCtx) runOrder(fr *frame, blocks []*ssa.BasicBlock, incoming map[*ssa.
 		if st.guard == "false" {
 			continue
 		}
+		// registers carried out of unrolled loops by the incoming edges
+		{
+			keys := map[ssa.Value]bool{}
+			for _, e := range ins {
+				for k := range e.st.snap {
+					keys[k] = true
+				}
+			}
+			for k := range keys {
+				var v Val
+				first := true
+				for i := len(ins) - 1; i >= 0; i-- {
+					sv, ok := ins[i].st.snap[k]
+					if !ok {
+						continue
+					}
+					if first {
+						v = sv
+						first = false
+					} else {
+						v = c.iteVal(ins[i].st.guard, sv, v)
+					}
+				}
+				fr.regs[k] = v
+			}
+			st.snap = nil
+		}
 		var phis []*ssa.Phi
 		for _, in := range b.Instrs {
 			if p, ok := in.(*ssa.Phi); ok {
@@ -88,8 +115,13 @@ func (c *FnCtx) runOrder(fr *frame, blocks []*ssa.BasicBlock, incoming map[*ssa.
 			c.execBlock(fr, b, st, route)
 			continue
 		}
-		if n, ok := c.constTrip(fr, li, entryPhi); ok && len(c.loopClauses(fr, li)) == 0 {
+		if n, ok := c.constTrip(fr, li, entryPhi); ok && (len(c.loopClauses(fr, li)) == 0 || c.bounded > 0) && (c.bounded == 0 || n <= 64) {
 			c.unroll(fr, li, st, entryPhi, phis, blocks, route, done, n)
+			continue
+		}
+		if c.bounded > 0 {
+			// bounded stand-in: explore at most c.bounded iterations, drop longer runs
+			c.unroll(fr, li, st, entryPhi, phis, blocks, route, done, -c.bounded)
 			continue
 		}
 		c.loopHead(fr, li, st, entryPhi, phis, blocks, done)
@@ -228,6 +260,11 @@ func loopBlocksInOrder(li *loopInfo, blocks []*ssa.BasicBlock) []*ssa.BasicBlock
 
 // unroll executes the loop n times plus the final failing test.
 func (c *FnCtx) unroll(fr *frame, li *loopInfo, st *State, entryPhi map[*ssa.Phi]Val, phis []*ssa.Phi, blocks []*ssa.BasicBlock, outer router, done map[*ssa.BasicBlock]bool, n int) {
+	boundedMode := false
+	if n < 0 {
+		boundedMode = true
+		n = -n
+	}
 	if n > 4096 {
 		bail("unroll: trip count %d over the cap", n)
 	}
@@ -256,6 +293,17 @@ func (c *FnCtx) unroll(fr *frame, li *loopInfo, st *State, entryPhi map[*ssa.Phi
 				local[to] = append(local[to], edgeState{from, s})
 				return
 			}
+			// leaving the loop: remember the loop-defined registers of this iteration
+			sn := map[ssa.Value]Val{}
+			for k, v := range s.snap {
+				sn[k] = v
+			}
+			for k, v := range fr.regs {
+				if in, ok := k.(ssa.Instruction); ok && in.Block() != nil && li.blocks[in.Block()] {
+					sn[k] = v
+				}
+			}
+			s.snap = sn
 			outer(from, to, s)
 		}
 		inner := map[*ssa.BasicBlock]bool{}
@@ -264,6 +312,9 @@ func (c *FnCtx) unroll(fr *frame, li *loopInfo, st *State, entryPhi map[*ssa.Phi
 			break
 		}
 		if iter == n {
+			if boundedMode {
+				break // longer executions are not explored
+			}
 			// the head test did not fold to false: not a constant loop after all
 			bail("unroll: loop at %s still iterating after %d iterations", c.posString(loopPos(li)), n)
 		}
@@ -319,6 +370,11 @@ func (c *FnCtx) dryRun(fr *frame, li *loopInfo, st *State, phis []*ssa.Phi, bloc
 	for k, v := range c.strLits {
 		savedLits[k] = v
 	}
+	savedAtoms := map[string]string{}
+	for k, v := range c.atoms {
+		savedAtoms[k] = v
+	}
+	defer func() { c.atoms = savedAtoms }()
 	savedEpochCache := snapshotEpochs(st)
 	savedEpochCtr := c.epochCtr
 	savedUnrolled := c.unrolled
